@@ -343,6 +343,19 @@ Definition waiters_ok (notified closed : list Z) (pre_with_this : list cev) : bo
   forallb (fun w => ever_blocked w pre_with_this) notified &&
   forallb (fun c => forallb (fun w => mem w notified) (registered c pre_with_this [])) closed.
 
+(* resolution completed (an address or a definite no-link-address for k): every done channel handed
+   out for k earlier has been closed, i.e. whoever waited was told *)
+Definition ev_closed (e : cev) : list Z :=
+  match e with
+  | EAdd _ _ _ _ c _ | EGet _ _ _ _ _ _ _ c | ECheck _ _ _ _ _ c _ | ETimer _ _ c => c
+  | ERemove _ _ _ => []
+  end.
+Definition waiters_told (k : Z) (closed_now : list Z) (pre : list cev) : bool :=
+  let closed_all := closed_now ++ flat_map ev_closed pre in
+  forallb (fun e => match e with
+                    | EGet _ k' _ _ r val _ _ => negb ((k' =? k) && (r =? 2)) || mem val closed_all
+                    | _ => true end) pre.
+
 Fixpoint spec_cache (N age attempts : Z) (pre : list cev) (evs : list cev) : Z :=
   match evs with
   | [] => 0
@@ -353,6 +366,7 @@ Fixpoint spec_cache (N age attempts : Z) (pre : list cev) (evs : list cev) : Z :
         | EGet now k res w r val notified closed =>
             (3 <=? r) || negb (waiters_ok notified closed (e :: pre)) ||
             if (res =? 1) && (k =? staticKey) then negb ((r =? 0) && (val =? staticVal))
+            else if (r <=? 1) && negb (waiters_told k closed pre) then true
             else if r =? 0 then negb (get_sound age now k val pre)
             else get_must_answer N age now k pre
         | ECheck now k att stop notified closed panicked =>
